@@ -511,17 +511,26 @@ def _clocks(layout, C):
     return [C.TempoClock(2.0), C.TempoClock(0.75)]
 
 
+SLEEP = 5.0        # seconds a waiter sleeps after getting through
+OP_SPACING = 4.0   # seconds between the controller's operations
+TEMPOS = {'sys': [1.0], 'tempo': [3.0], 'sys+tempo': [1.0, 0.5],
+          'tempo+tempo': [2.0, 0.75]}
+
+
 def run_waiters(what, nwait, layout, ops, mode):
     """what: 'condition' | 'flowvar'; mode: 'outside' | 'controller'.
-    Every waiter waits twice (the second wait starts when the first is over).
-    -> None | dict(step, observed, expected, what)"""
+    Every waiter waits, logs that it got through, sleeps SLEEP seconds (in
+    beats of its clock), logs whether it slept exactly that long (a spurious
+    wake-up shortens the sleep), and does it all a second time.
+    -> None | dict(step, aspect, observed, expected, what)"""
     M, S, C = _mods()
     main = M.main
     main.reset()
     if main.current_tt is not main.main_tt:
         main.current_tt = main.main_tt
     clocks = _clocks(layout, C)
-    log = []                 # ('op', k) | ('pass', waiter, nth, value)
+    tempos = TEMPOS[layout]
+    log = []          # ('op', k) | ('pass', i, nth, value) | ('woke', i, nth, ok)
     if what == 'condition':
         cond = S.Condition()
         ref = SM.ConditionSM(False)
@@ -529,77 +538,113 @@ def run_waiters(what, nwait, layout, ops, mode):
         fv = S.FlowVar()
         ref = SM.FlowVarSM()
     waiters = []
-    started = [0]
 
     def mk(i):
-        if what == 'condition':
-            def body():
-                for nth in range(2):
+        beats = SLEEP * tempos[i % len(tempos)]
+
+        def body():
+            for nth in range(2):
+                if what == 'condition':
                     yield from cond.wait()
-                    log.append(('pass', i, nth, None))
-        else:
-            def body():
-                for nth in range(2):
-                    v = yield from fv.value
-                    log.append(('pass', i, nth, norm(v)))
+                    v = None
+                else:
+                    v = norm((yield from fv.value))
+                log.append(('pass', i, nth, v))
+                t0 = main.current_tt._seconds
+                yield beats
+                t1 = main.current_tt._seconds
+                log.append(('woke', i, nth, abs((t1 - t0) - SLEEP) < 1e-9))
         return S.Routine(body)
 
-    # ---- the reference: which passes follow each step --------------------
-    # model of a waiter: after a pass it immediately waits again (2 waits)
+    # ---- the reference: a small discrete-event model ----------------------
+    INF = float('inf')
     done = {}
+    pending = []             # (time, seqno, waiter)
+    seqno = [0]
 
-    def ref_wait(i):
-        """waiter i calls wait/read; -> list of passes that happen at once"""
-        out = []
-        while done[i] < 2:
-            if what == 'condition':
-                ok, val = ref.wait(i), None
-            else:
-                ok, val = ref.read(i)
-            if not ok:
-                break
-            out.append(('pass', i, done[i], val))
+    def m_pass(i, t, val, out):
+        out.append(('pass', i, done[i], val))
+        pending.append((t + SLEEP, seqno[0], i))
+        seqno[0] += 1
+
+    def m_wait(i, t, out):
+        if done[i] >= 2:
+            return
+        if what == 'condition':
+            if ref.wait(i):
+                m_pass(i, t, None, out)
+        else:
+            ok, val = ref.read(i)
+            if ok:
+                m_pass(i, t, val, out)
+
+    def m_advance(until, out):
+        while True:
+            due = [e for e in pending if e[0] < until]
+            if not due:
+                return
+            e = min(due)
+            pending.remove(e)
+            t, _, i = e
+            out.append(('woke', i, done[i], True))
             done[i] += 1
-        return out
+            m_wait(i, t, out)
 
-    def ref_release(released, val=None):
-        out = []
-        for i in released:
-            v = val if what == 'flowvar' else None
-            out.append(('pass', i, done[i], v))
-            done[i] += 1
-            out.extend(ref_wait(i))
-        return out
-
-    def ref_start(i):
+    def m_start(i, t, out):
         done[i] = 0
-        return ref_wait(i)
+        m_wait(i, t, out)
 
-    def ref_op(op):
+    def m_op(op, t, out):
+        """-> 'ok' | 'refused'"""
+        if op == 'late':
+            m_start(len(done), t, out)
+            return 'ok'
         if op == 'true':
             ref.set_test(True)
-            return []
+            return 'ok'
         if op == 'false':
             ref.set_test(False)
-            return []
+            return 'ok'
         if op == 'signal':
-            return ref_release(ref.signal(),
-                               ref.value if what == 'flowvar' else None)
-        if op == 'unhang':
-            return ref_release(ref.unhang())
-        if op in ('assign-a', 'assign-b'):
+            rel = ref.signal()
+            val = ref.value if what == 'flowvar' else None
+        elif op == 'unhang':
+            rel, val = ref.unhang(), None
+        else:
             res, rel = ref.assign(op[-1])
-            return res, ref_release(rel, ref.value)
-        raise ValueError(op)
+            if res == 'refused':
+                return 'refused'
+            val = ref.value
+        for i in rel:
+            m_pass(i, t, val, out)
+        return 'ok'
 
+    expected = [[]]
+    status = []
+    for i in range(nwait):
+        m_start(i, 0.0, expected[0])
+    if mode == 'outside':
+        m_advance(INF, expected[0])
+    for k, op in enumerate(ops):
+        t = OP_SPACING * (k + 1)        # only meaningful in controller mode
+        if mode == 'controller':
+            m_advance(t, expected[-1])
+        expected.append([])
+        status.append(m_op(op, t, expected[-1]))
+        if mode == 'outside':
+            m_advance(INF, expected[-1])
+    m_advance(INF, expected[-1])
+
+    # ---- the real run ------------------------------------------------------
     def start(i):
         r = mk(i)
         waiters.append(r)
         r.play(clocks[i % len(clocks)])
 
     def real_op(op):
-        """-> 'ok' | 'refused'"""
-        if op == 'true':
+        if op == 'late':
+            start(len(waiters))
+        elif op == 'true':
             cond.test = True
         elif op == 'false':
             cond.test = False
@@ -607,38 +652,13 @@ def run_waiters(what, nwait, layout, ops, mode):
             (cond if what == 'condition' else fv.condition).signal()
         elif op == 'unhang':
             cond.unhang()
-        elif op in ('assign-a', 'assign-b'):
+        else:
             try:
                 fv.value = op[-1]
             except Exception:
                 return 'refused'
         return 'ok'
 
-    expected = []            # per segment: sorted list of passes
-    status = []              # real vs expected refusal per step
-    # segment 0: the initial waiters start
-    exp0 = []
-    for i in range(nwait):
-        exp0.extend(ref_start(i))
-    expected.append(exp0)
-    late_next = [nwait]
-
-    def ref_step(op):
-        if op == 'late':
-            i = late_next[0]
-            late_next[0] += 1
-            return 'ok', ref_start(i)
-        r_ = ref_op(op)
-        if isinstance(r_, tuple):
-            return r_
-        return 'ok', r_
-
-    for op in ops:
-        st, ps = ref_step(op)
-        status.append(st)
-        expected.append(ps)
-
-    # ---- the real run ------------------------------------------------------
     real_status = []
     if mode == 'outside':
         for i in range(nwait):
@@ -646,34 +666,28 @@ def run_waiters(what, nwait, layout, ops, mode):
         _drain(main)
         for k, op in enumerate(ops):
             log.append(('op', k))
-            if op == 'late':
-                start(len(waiters))
-                real_status.append('ok')
-            else:
-                real_status.append(real_op(op))
+            real_status.append(real_op(op))
             _drain(main)
     else:
         def controller():
             for i in range(nwait):
                 start(i)
-            yield 4
+            yield OP_SPACING
             for k, op in enumerate(ops):
                 log.append(('op', k))
-                if op == 'late':
-                    start(len(waiters))
-                    real_status.append('ok')
-                else:
-                    real_status.append(real_op(op))
-                yield 4
+                real_status.append(real_op(op))
+                yield OP_SPACING
         # every 4 s all the clocks used here are on a whole beat, so that a
         # late starter played on a TempoClock (default quant 1) starts at once
         S.Routine(controller).play(C.SystemClock)
         _drain(main)
     if main.current_tt is not main.main_tt:
         main.current_tt = main.main_tt
-        return {'step': len(ops), 'observed': 'current thread not restored',
-                'expected': 'main thread', 'what': 'current thread clobbered',
-                'aspect': 'frame'}
+        return {'step': len(ops) - 1, 'aspect': 'frame',
+                'observed': 'current thread not restored',
+                'expected': 'main thread',
+                'what': 'the current thread is not the main thread after the '
+                        'scheduler ran'}
 
     # ---- compare -----------------------------------------------------------
     segs = [[]]
@@ -682,24 +696,22 @@ def run_waiters(what, nwait, layout, ops, mode):
             segs.append([])
         else:
             segs[-1].append(e)
-    while len(segs) < len(expected):
-        segs.append([])
 
     def canon(lst):
         return sorted([list(x) for x in lst], key=json.dumps)
     for k in range(len(expected)):
-        if k >= 1 and real_status[k - 1:k] != status[k - 1:k]:
+        if k >= 1 and real_status[k - 1] != status[k - 1]:
             return {'step': k - 1, 'aspect': 'refusal',
-                    'observed': real_status[k - 1:k], 'expected': status[k - 1],
+                    'observed': real_status[k - 1], 'expected': status[k - 1],
                     'what': 'step %d (%s) was %s, expected %s' % (
-                        k - 1, ops[k - 1], real_status[k - 1:k], status[k - 1])}
+                        k - 1, ops[k - 1], real_status[k - 1], status[k - 1])}
         if canon(segs[k]) != canon(expected[k]):
             return {'step': k - 1, 'aspect': 'wakeups',
                     'observed': canon(segs[k]), 'expected': canon(expected[k]),
-                    'what': 'after step %d (%s) the waiters that got through '
-                            '(waiter, nth wait, value) are %r, expected %r' % (
-                                k - 1, ops[k - 1] if k else 'start',
-                                canon(segs[k]), canon(expected[k]))}
+                    'what': 'after step %d (%s) the log of (pass|woke, waiter, '
+                            'nth wait, value|slept-in-full) is %r, expected %r'
+                            % (k - 1, ops[k - 1] if k else 'start',
+                               canon(segs[k]), canon(expected[k]))}
     return None
 
 
@@ -717,9 +729,11 @@ def _wait_worker(arg):
         n += 1
         v = run_waiters(what, nwait, layout, ops, mode)
         if v is not None:
-            pre = list(ops[:max(v['step'], 0) + 1])
+            # later steps can matter in controller mode (they happen while a
+            # waiter sleeps): keep one more
+            pre = list(ops[:max(v['step'], 0) + 2])
             if len(out) < 6:
-                out.append((pre, v))
+                out.append((pre, list(ops), v))
         distinct.add(ops)
     return what, nwait, layout, mode, n, len(distinct), out
 
@@ -741,14 +755,27 @@ def run_waiting(rep, what):
                 _wait_worker, args):
             total += n
             distinct += d
-            for pre, v in out:
-                found.append((len(pre), nw, lay, mode, pre, v))
+            for pre, full, v in out:
+                found.append((len(pre), nw, lay, mode, pre, full, v))
     found.sort(key=lambda e: (e[0], e[1], e[2], e[3], e[4]))
-    for ln, nw, lay, mode, pre, v in found:
+    for ln, nw, lay, mode, pre, full, v in found:
         v2 = run_waiters(what, nw, lay, pre, mode)
         if v2 is None:
-            v2 = v
+            pre = full
+            v2 = run_waiters(what, nw, lay, pre, mode) or v
         key = 'C11.%s:%s' % (what, v2['aspect'])
+        if sum(1 for w in rep.violations if w['key'] == key) >= 3:
+            continue
+        # shrink: drop operations while the same clause still fails
+        changed = True
+        while changed and len(pre) > 1:
+            changed = False
+            for i in range(len(pre)):
+                cand = pre[:i] + pre[i + 1:]
+                v3 = run_waiters(what, nw, lay, cand, mode)
+                if v3 is not None and v3['aspect'] == v2['aspect']:
+                    pre, v2, changed = cand, v3, True
+                    break
         rep.violation(
             obligation='C11.%s.%s' % (what, v2['aspect']),
             what='%d waiter(s) on %s, operations %s (%s): %s' % (
